@@ -274,3 +274,241 @@ func zzH_C27_touch_within_paid() {
 	zzReach("executed")
 	zzObserve("len", mem.Len())
 }
+
+// ---- EIP-8024 (DUPN / SWAPN / EXCHANGE): immediates and stack bounds ----
+
+// zzValidSingle / zzValidPair: the immediates the EIP allows.
+func zzValidSingle(x byte) bool { return x <= 90 || x >= 128 }
+func zzValidPair(x byte) bool   { return x <= 81 || x >= 128 }
+
+// decode_single of the EIP: immediates 128..255 are depths 17..144, 0..90 are 145..235.
+func zzSpecSingle(x byte) int {
+	if x >= 128 {
+		return int(x) - 111
+	}
+	return int(x) + 145
+}
+
+func zzH_C27_decode_props() {
+	x, y := zzNondetU8(), zzNondetU8()
+	if zzValidSingle(x) {
+		n := decodeSingle(x)
+		zzAssert(n == zzSpecSingle(x), "decodeSingle equals decode_single of the EIP")
+		zzAssert(n >= 17 && n <= 235, "single depth within 17..235")
+		if zzValidSingle(y) && x != y {
+			zzAssert(decodeSingle(y) != n, "decodeSingle is injective on valid immediates")
+		}
+		zzReach("single")
+	}
+	if zzValidPair(x) {
+		n, m := decodePair(x)
+		zzAssert(n >= 1 && n < m && n+m <= 30, "pair satisfies 1 <= n < m, n+m <= 30")
+		if zzValidPair(y) && x != y {
+			n2, m2 := decodePair(y)
+			zzAssert(n2 != n || m2 != m, "decodePair is injective on valid immediates")
+		}
+		zzReach("pair")
+	}
+}
+
+// zzFrame builds an arena holding a suspended parent frame of P symbolic words and a
+// child frame of n symbolic words on top of it.
+func zzFrame(P, n int) (arena *stackArena, parent []uint256.Int, st *Stack, words []uint256.Int) {
+	arena = &stackArena{data: make([]uint256.Int, initialStackSize)}
+	parent = make([]uint256.Int, P)
+	for i := range parent {
+		parent[i] = zzU256()
+		arena.data[i] = parent[i]
+	}
+	arena.top = P
+	st = arena.stack()
+	words = make([]uint256.Int, n) // words[0] = bottom of the child frame
+	for i := range words {
+		words[i] = zzU256()
+		st.push(&words[i])
+	}
+	return
+}
+
+// The real handlers on a child frame of exactly N words above a parent frame, for an
+// immediate x: either the error the EIP prescribes, or exactly the EIP's effect; the
+// parent frame is never read into the result nor written.
+func zzH_C27_stack_immediates() {
+	const P = 2
+	var x byte
+	if zzBound("ALLIMM") != 0 {
+		x = byte(zzChoice(256))
+	} else {
+		imms := [...]byte{0, 1, 81, 82, 90, 91, 127, 128, 129, 143, 144, 240, 255}
+		x = imms[zzChoice(len(imms))]
+	}
+	missing := zzNondetBool() // the immediate byte lies beyond the end of code: treated as 0
+	op := zzChoice(3)
+	opcode := [...]OpCode{DUPN, SWAPN, EXCHANGE}[op]
+	code := []byte{byte(opcode), x}
+	if missing {
+		code = code[:1]
+		x = 0
+	}
+	// required depth according to the EIP
+	valid := zzValidSingle(x)
+	need := 0
+	var n, m int
+	switch op {
+	case 0:
+		n = zzSpecSingle(x)
+		need = n
+	case 1:
+		n = zzSpecSingle(x)
+		need = n + 1
+	default:
+		valid = zzValidPair(x)
+		n, m = decodePair(x) // shape properties of decodePair are decode_props' subject
+		need = m + 1
+	}
+	// frame sizes around the required depth, and the table's minimum
+	N := need - 2 + zzChoice(4)
+	if !valid {
+		N = 1 + zzChoice(3)
+	}
+	zzAssume(N >= 1 && N <= 1023)
+	arena, parent, st, w := zzFrame(P, N)
+	scope := &ScopeContext{Stack: st, Contract: &Contract{Code: code}}
+	var pc uint64
+	var err error
+	switch op {
+	case 0:
+		_, err = opDupN(&pc, &EVM{}, scope)
+	case 1:
+		_, err = opSwapN(&pc, &EVM{}, scope)
+	default:
+		_, err = opExchange(&pc, &EVM{}, scope)
+	}
+	for i := range parent {
+		zzAssert(arena.data[i] == parent[i], "the suspended parent frame is untouched")
+	}
+	switch {
+	case !valid:
+		_, ok := err.(*ErrInvalidOpCode)
+		zzAssert(ok, "forbidden immediate is an invalid opcode")
+		zzAssert(st.len() == N && pc == 0, "failed instruction has no effect")
+		zzReach("invalid-immediate")
+	case N < need:
+		_, ok := err.(*ErrStackUnderflow)
+		zzAssert(ok, "insufficient depth is a stack underflow")
+		zzAssert(st.len() == N && pc == 0, "failed instruction has no effect")
+		for i := 0; i < N; i++ {
+			zzAssert(arena.data[P+i] == w[i], "failed instruction leaves the frame alone")
+		}
+		zzReach("underflow")
+	default:
+		zzAssert(err == nil, "valid immediate with sufficient depth succeeds")
+		zzAssert(pc == 1, "pc skips the immediate")
+		top := N - 1
+		switch op {
+		case 0:
+			zzAssert(st.len() == N+1, "DUPN pushes one word")
+			zzAssert(arena.data[P+N] == w[N-n], "DUPN duplicates the n-th word")
+			for i := 0; i < N; i++ {
+				zzAssert(arena.data[P+i] == w[i], "DUPN leaves the rest")
+			}
+		case 1:
+			zzAssert(st.len() == N, "SWAPN keeps the size")
+			for i := 0; i < N; i++ {
+				want := w[i]
+				if i == top {
+					want = w[top-n]
+				} else if i == top-n {
+					want = w[top]
+				}
+				zzAssert(arena.data[P+i] == want, "SWAPN swaps the top with the (n+1)-th word only")
+			}
+		default:
+			zzAssert(st.len() == N, "EXCHANGE keeps the size")
+			for i := 0; i < N; i++ {
+				want := w[i]
+				if i == top-n {
+					want = w[top-m]
+				} else if i == top-m {
+					want = w[top-n]
+				}
+				zzAssert(arena.data[P+i] == want, "EXCHANGE swaps the (n+1)-th with the (m+1)-th word only")
+			}
+		}
+		zzReach("executed")
+	}
+	zzObserve("len", int64(st.len()))
+}
+
+// ---- the real interpreter loop on short programs ----
+
+// zzInstr appends one instruction from the menu of opcodes that need only the
+// stack, memory, code and call data (no state database); immediates are symbolic.
+func zzInstr(code []byte, menu int) []byte {
+	ops := [...]OpCode{PUSH0, PUSH1, PUSH8, POP, DUP1, ADD, MLOAD, MSTORE, MSIZE, JUMP, JUMPDEST, RETURN,
+		PUSH32, SWAP1, MSTORE8, MCOPY, JUMPI, PC, GAS, CALLDATALOAD, CALLDATASIZE, CALLDATACOPY, CODECOPY, REVERT, STOP, INVALID,
+		DUPN, SWAPN, EXCHANGE, OpCode(0x0c)}
+	if menu > len(ops) {
+		menu = len(ops)
+	}
+	op := ops[zzChoice(menu)]
+	code = append(code, byte(op))
+	n := 0
+	switch op {
+	case PUSH1, DUPN, SWAPN, EXCHANGE:
+		n = 1
+	case PUSH8:
+		n = 8
+	case PUSH32:
+		n = 32
+	}
+	for i := 0; i < n; i++ {
+		code = append(code, zzNondetU8())
+	}
+	return code
+}
+
+// built once by the package initialiser (the constructors run concretely)
+var zzAmsterdamTable = newAmsterdamInstructionSet()
+
+// EVM.Run itself (the real loop: stack validation, constant and dynamic gas, memory
+// pre-step, handler, pc) on every program of K menu instructions, Amsterdam rules,
+// symbolic gas and call data, running as a child frame above a suspended parent.
+func zzH_C27_run_small() {
+	const P = 2
+	tbl := zzAmsterdamTable
+	arena := &stackArena{data: make([]uint256.Int, initialStackSize)}
+	var parent [P]uint256.Int
+	for i := range parent {
+		parent[i] = zzU256()
+		arena.data[i] = parent[i]
+	}
+	arena.top = P
+	evm := &EVM{table: &tbl, arena: arena}
+	var code []byte
+	for k := 0; k < zzBound("K"); k++ {
+		code = zzInstr(code, zzBound("MENU"))
+	}
+	gas0 := zzNondetU64()
+	zzAssume(gas0 <= uint64(zzBound("GAS"))) // bounds the memory a program can pay for
+	input := zzNondetBytes(zzBound("IN"))
+	c := &Contract{Code: code, Gas: GasBudget{ExecutionGas: gas0}}
+	ret, err := evm.Run(c, input, false) // must not panic, whatever the program does
+
+	g := c.Gas
+	zzAssert(g.ExecutionGas <= gas0, "execution never creates gas")
+	zzAssert(g.UsedExecutionGas == gas0-g.ExecutionGas, "gas used + gas left = gas given")
+	zzAssert(g.StateGas == 0 && g.UsedStateGas == 0 && g.Spilled == 0, "no state gas without state operations")
+	for i := range parent {
+		zzAssert(arena.data[i] == parent[i], "the suspended parent frame is untouched")
+	}
+	zzAssert(arena.top == P, "the frame's stack is released")
+	zzAssert(evm.depth == 0, "call depth restored")
+	if err == nil {
+		zzReach("completed")
+	} else {
+		zzAssert(ret == nil || err == ErrExecutionReverted, "only a revert carries data with an error")
+		zzReach("failed")
+	}
+	zzObserve("gasleft", g.ExecutionGas)
+}
